@@ -10,7 +10,7 @@ const C02_RULES = new Set(['temp-unused', 'temp-nonlinear', 'temp-order', 'temp-
 
 module.exports = mk({
   id: 'C02',
-  families: ['A', 'B', 'C', 'G', 'M', 'S', 'T', 'H', 'Q', 'R'],
+  families: ['A', 'B', 'C', 'G', 'M', 'S', 'T', 'H', 'Q', 'R', 'N', 'L'],
   corpus: { configs: ['FULL', 'PLUS_ONLY', 'METHODS_ONLY'], quickLimit: 60 },
   extra: async () => {
     const leaves = []
